@@ -587,3 +587,44 @@ Lemma notify_before_state_stale :
   let t := [NNotify nat; NWrite nat (fun n => n + 1)%nat] in
   ends_notified nat t = false /\ nrun nat t (0, 0)%nat = (1, 0)%nat.
 Proof. vm_compute. split; reflexivity. Qed.
+
+(* ---------- local progress of [steps] for a well-locked program ---------- *)
+(* In a reachable state of a program that passes the checker, a goroutine that has something left
+   to do can take its next step unless that step is Lock / RLock of a mutex held by ANOTHER
+   goroutine; in particular it never waits for a mutex it holds itself (no self-deadlock: the
+   checker refuses to acquire a held mutex), never releases a mutex it does not hold, and an idle
+   goroutine can always start a function. *)
+Lemma well_locked_local_progress G O bodies c0 c i :
+  forallb (check G O [] []) bodies = true -> idle c0 -> steps bodies c0 c ->
+  match code (c i) with
+  | [] => True
+  | Acq m :: _ => (~ In m (hx (c i)) /\ ~ In m (hr (c i))) /\
+                  ((forall j, j <> i -> ~ In m (hx (c j)) /\ ~ In m (hr (c j))) -> exists c', step bodies c c')
+  | AcqR m :: _ => (~ In m (hx (c i)) /\ ~ In m (hr (c i))) /\
+                   ((forall j, j <> i -> ~ In m (hx (c j))) -> exists c', step bodies c c')
+  | CondB :: _ | CondE :: _ => True     (* block markers occur only in the program of the notification analysis *)
+  | _ => exists c', step bodies c c'
+  end.
+Proof.
+  intros WB Hi St. destruct (idle_inv G O c0 Hi) as [A B].
+  destruct (steps_inv G O bodies c0 c WB A B St) as [I1' _].
+  pose proof (I1' i) as C. destruct (code (c i)) as [|a r] eqn:E; [exact I|].
+  destruct a; cbn [check] in C.
+  - apply andb_true_iff in C. destruct C as [C _]. apply andb_true_iff in C. destruct C as [C1 C2].
+    apply negb_true_iff in C1, C2. apply mem_false in C1, C2. split; [split; assumption|].
+    intros Free. eexists. apply (SAcq bodies c i m r E). intros j. destruct (Nat.eq_dec j i) as [->|Hne]; [split; assumption|apply Free, Hne].
+  - apply andb_true_iff in C. destruct C as [C _]. apply andb_true_iff in C. destruct C as [C1 C2].
+    apply negb_true_iff in C1, C2. apply mem_false in C1, C2. split; [split; assumption|].
+    intros Free. eexists. apply (SAcqR bodies c i m r E). intros j. destruct (Nat.eq_dec j i) as [->|Hne]; [assumption|apply Free, Hne].
+  - apply andb_true_iff in C. destruct C as [C _]. eexists. apply (SRel bodies c i m r E). apply mem_in, C.
+  - apply andb_true_iff in C. destruct C as [C _]. eexists. apply (SRelR bodies c i m r E). apply mem_in, C.
+  - eexists. apply (SRd bodies c i f r E).
+  - eexists. apply (SWrW bodies c i f r E).
+  - eexists. apply (SWrE bodies c i f r E).
+  - discriminate.
+  - eexists. apply (SCb bodies c i c1 r E).
+  - eexists. apply (SSend bodies c i ch r E).
+  - eexists. apply (SRecv bodies c i ch r E).
+  - exact I.
+  - exact I.
+Qed.
